@@ -103,7 +103,12 @@ class Sym:
         self.tables = spec.get("tables", [])
         self.outs = spec["out"]
         self.option = spec.get("option", False)
-        self.inputs = {p: (lean_ident(p), t) for p, t in spec["params"]}
+        # opaque inputs: variables whose defining expression is outside the fragment (frequency[index], np.max(...)); they
+        # stand for "the value this variable holds". Never an output of the slice.
+        self.inputs = {p: (lean_ident(p), t) for p, t in spec["params"] if p in spec.get("opaque", [])}
+        self.tree = None
+        self.cls = spec.get("cls")
+        self.depth = 0
         self.consts = spec.get("consts", {})
 
     # ---------------- expressions
@@ -210,7 +215,41 @@ class Sym:
             e, t = self.expr(node.func.value, env)
             self.need(t, "str")
             return f"(pyLower {e})", "str"
+        helper = self.find_helper(fn)
+        if helper is not None and self.depth < 3:
+            names = [a.arg for a in helper.args.args if a.arg not in ("self", "cls")]
+            if len(names) != len(node.args) or helper.args.vararg or helper.args.kwarg or helper.args.kwonlyargs:
+                raise Untranslatable(f"arguments of helper {fn}")
+            sub = Sym(dict(params=[], out=["return"], option=False, tables=self.tables))
+            sub.tree, sub.cls, sub.depth, sub.counter = self.tree, self.cls, self.depth + 1, self.counter + 1000 * (self.depth + 1)
+            env2 = {}
+            lets = ""
+            for n, a in zip(names, node.args):
+                e, t = self.expr(a, env)
+                self.counter += 1
+                fresh = f"arg_{lean_ident(n)}_{self.counter}"
+                lets += f"let {fresh}{' : α' if t == 'num' else ''} := {e}; "
+                env2[n] = (fresh, t)
+            body = sub.run(list(helper.body), env2)
+            return f"({lets}{body})", "num"
         raise Untranslatable(f"call {fn}")
+
+    def find_helper(self, fn):
+        """a plain function of the module, or a method of the class being translated, called as f(...) / self.f(...) / Class.f(...)"""
+        if self.tree is None:
+            return None
+        parts = fn.split(".")
+        if len(parts) == 1:
+            for n in self.tree.body:
+                if isinstance(n, ast.FunctionDef) and n.name == parts[0]:
+                    return n
+        if len(parts) == 2 and (parts[0] in ("self", "cls") or parts[0] == self.cls):
+            for n in self.tree.body:
+                if isinstance(n, ast.ClassDef) and n.name == self.cls:
+                    for m in n.body:
+                        if isinstance(m, ast.FunctionDef) and m.name == parts[1]:
+                            return m
+        return None
 
     def cond(self, node, env):
         if isinstance(node, ast.BoolOp):
@@ -563,6 +602,7 @@ def translate(repo, spec):
     try:
         with open(os.path.join(repo, spec["file"])) as f:
             tree = ast.parse(f.read())
+        sym.tree = tree
         env = {p: (lean_ident(p), t) for p, t in params}
         for t_ in spec.get("tables", []):
             env[t_] = (lean_ident(t_), "table")
@@ -666,10 +706,12 @@ TARGETS = [
          params=[("mc_peak_frq", "num")], out=["epsilon", "theta"], out_types=["num", "num"]),
     # SESAME reliability criteria i-iii as functions of the peak frequency and of max sigma_A in the +-octave band
     dict(group="Sesame", name="reliability_criteria", file="hvsrpy/sesame.py", func="reliability", start_after="mc_peak_frq", consts={"verbose": 0},
+         opaque=["mc_peak_frq", "sigma_a_max"],
          params=[("windowlength", "num"), ("passing_window_count", "num"), ("mc_peak_frq", "num"), ("sigma_a_max", "num")],
          out=["criteria[0]", "criteria[1]", "criteria[2]"], out_types=["num", "num", "num"]),
     # SESAME clarity criteria iii-vi as functions of the peak, of the peaks of the +-sigma curves and of sigma_A at the peak
     dict(group="Sesame", name="clarity_criteria", file="hvsrpy/sesame.py", func="clarity", start_after="mc_peak_amp", consts={"verbose": 0},
+         opaque=["mc_peak_frq", "mc_peak_amp", "f_plus", "f_minus", "sigma_a_peak"],
          params=[("mc_peak_frq", "num"), ("mc_peak_amp", "num"), ("f_plus", "num"), ("f_minus", "num"), ("fn_std", "num"), ("sigma_a_peak", "num")],
          out=["criteria[2]", "criteria[3]", "criteria[4]", "criteria[5]"], out_types=["num"] * 4),
     # frequency-domain window rejection: the accept decision of the inner loop (None = window skipped, its masks are kept) ...
